@@ -8,7 +8,9 @@ pub mod c07;
 pub mod c08;
 pub mod c09;
 pub mod c11;
+pub mod c13;
 pub mod c14;
+pub mod c16;
 
 use crate::run::Cfg;
 
@@ -24,7 +26,9 @@ pub fn dispatch(cfg: &Cfg) -> i32 {
         "C08" => c08::run(cfg),
         "C09" => c09::run(cfg),
         "C11" => c11::run(cfg),
+        "C13" => c13::run(cfg),
         "C14" => c14::run(cfg),
+        "C16" => c16::run(cfg),
         other => {
             eprintln!("unknown property {other}");
             2
